@@ -1,6 +1,8 @@
 package checks
 
 import (
+	"golang.org/x/tools/go/packages"
+
 	"fmt"
 	"go/ast"
 	"go/token"
@@ -155,6 +157,43 @@ func checkC07(r *core.Result) {
 	}
 	r.Programs = len(ex.Units)
 	r.Floor("messages analysed", n, 100)
+}
+
+// noCachedSizeRule (H-nocache): no function of the package asks a runtime to reuse a size computed by an
+// earlier call: no UseCachedSize option that can be true, no read of a message's size-cache field.
+func noCachedSizeRule(r *core.Result, prog *core.Program, pk *packages.Package) int {
+	info := pk.TypesInfo
+	n := 0
+	for _, f := range core.Funcs(pk) {
+		if f.Decl == nil || f.Decl.Body == nil {
+			continue
+		}
+		n++
+		f := f
+		ast.Inspect(f.Decl.Body, func(nn ast.Node) bool {
+			switch x := nn.(type) {
+			case *ast.KeyValueExpr:
+				if k, ok := x.Key.(*ast.Ident); ok && k.Name == "UseCachedSize" {
+					if tv, ok := info.Types[x.Value]; !ok || tv.Value == nil || tv.Value.String() != "false" {
+						r.Ob("H-nocache", f.Name+" :: UseCachedSize", prog.Pos(x.Pos()), false, "a runtime is asked to reuse the sizes cached by an earlier Size call: they describe the contents at that time, not the current ones")
+					}
+				}
+			case *ast.AssignStmt:
+				for _, l := range x.Lhs {
+					if se, ok := l.(*ast.SelectorExpr); ok && se.Sel.Name == "UseCachedSize" {
+						r.Ob("H-nocache", f.Name+" :: UseCachedSize", prog.Pos(x.Pos()), false, "a runtime is asked to reuse the sizes cached by an earlier Size call")
+					}
+				}
+			case *ast.SelectorExpr:
+				switch x.Sel.Name {
+				case "sizeCache", "XXX_sizecache", "CachedSize":
+					r.Ob("H-nocache", f.Name+" :: "+x.Sel.Name, prog.Pos(x.Pos()), false, "the size cache of a message is read outside the code that owns it")
+				}
+			}
+			return true
+		})
+	}
+	return n
 }
 
 // ---------------------------------------------------------------------------
@@ -352,4 +391,21 @@ func checkC09(r *core.Result) {
 	}
 	r.Programs = len(ex.Units)
 	r.Floor("messages analysed", n, 100)
+	// hand-written packages: sizes are computed, never taken from a runtime's cache
+	prog, err := core.Load(".", "./lazyproto")
+	if err != nil {
+		r.Infra("%v", err)
+		return
+	}
+	nf := 0
+	for _, rel := range []string{"", "lazyproto"} {
+		if pk := prog.Pkg(rel); pk != nil {
+			nf += noCachedSizeRule(r, prog, pk)
+		}
+	}
+	r.Floor("hand-written functions scanned for cached-size use", nf, 150)
+	mustFire(r, "H-nocache", `package fx
+type opts struct{ UseCachedSize, Deterministic bool }
+func (o opts) Size(m interface{}) int { return 0 }
+func f(m interface{}) int { return opts{UseCachedSize: true}.Size(m) }`, func(fr *core.Result, fprog *core.Program, fpk *packages.Package) { noCachedSizeRule(fr, fprog, fpk) })
 }
